@@ -31,6 +31,18 @@ structure Owner where
 
 def Owner.ref (o : Owner) (ctrl : Bool) : ORef := ⟨o.group, o.kind, o.name, o.uid, ctrl⟩
 
+/-- Identity of an owner as the dynamic cache records it (`dynamiccache.OwnerReference`, built by
+`Cache.ownerRef`: group/kind, uid, name, namespace). -/
+structure WRef where
+  group : String
+  kind : String
+  ns : String
+  name : String
+  uid : String
+  deriving DecidableEq, Repr, Inhabited
+
+def Owner.wref (o : Owner) : WRef := ⟨o.group, o.kind, o.ns, o.name, o.uid⟩
+
 /-- boxcutter `referSameObject`: group, kind, name and uid. -/
 def sameObj (a b : ORef) : Bool :=
   a.group == b.group && a.kind == b.kind && a.name == b.name && a.uid == b.uid
@@ -249,6 +261,9 @@ inductive PhaseEvent where
   | delete (name : String) (res : Option ApiErr)
   | finalizerPatch (name : String) (add : Bool) (res : Option ApiErr)
   | statusUpdate (name : String) (res : Option ApiErr) (conds : List Cond) (controllerOf : List CRef)
+  -- full update (`client.Update`) of the phase object: only issued by the remote-phase teardown when
+  -- the ObjectSet's namespace is in deletion (`Pko.Model.RemoteNs`)
+  | update (name : String) (res : Option ApiErr)
   deriving Repr, Inhabited
 
 structure World where
@@ -272,11 +287,20 @@ structure World where
   -- writes on managed objects (`writes`) and on phase objects (`phaseEvents`) had been issued
   -- before it.  Never read by the model (only by `Pko.Drv.SysCommon.refusedStep`).
   ticks : List (Nat × Nat) := []
+  -- IN-MEMORY state of the operator PROCESS (not a ghost: `World.started` reads it; lost by a
+  -- restart): `informerReferences` of `internal/dynamiccache.Cache` as (kind, owner) pairs — an
+  -- informer for a kind exists iff some pair names the kind.  Maintained by `World.watch` /
+  -- `World.free` / `World.restart` only.
+  watched : List (String × WRef) := []
+  -- GHOST (C10, taken together with `snap`): the registrations as they are when write request number
+  -- `crashAt` is about to be issued — what a process that survives the failed call still holds.
+  snapW : Option (List (String × WRef)) := none
 
 /-- GHOST: called once per write request PKO issues, right before it. -/
 def World.tick (w : World) : World :=
   { w with gw := w.gw + 1,
            snap := if w.crashAt = some w.gw && w.snap.isNone then some (w.store, w.phases) else w.snap,
+           snapW := if w.crashAt = some w.gw && w.snap.isNone then some w.watched else w.snapW,
            ticks := w.ticks ++ [(w.writes, w.phaseEvents.length)] }
 
 /-- Run the third-party operations scheduled before the next PKO write. -/
@@ -312,7 +336,26 @@ inductive ObjRes where
   | err
   deriving Repr, Inhabited
 
-/-- cache read after `Watch`: fresh, but only objects carrying the cache label. -/
+/-! ### The dynamic cache's per-process registrations (`internal/dynamiccache/cache.go`) -/
+
+/-- `Cache.Watch(owner, obj)`: the informer of the object's kind is created if nobody watches the
+kind yet, and the owner is remembered as one of its users (`informerReferences[gvk][ownerRef]`). -/
+def World.watch (w : World) (ow : Owner) (kind : String) : World :=
+  { w with watched := if w.watched.contains (kind, ow.wref) then w.watched else w.watched ++ [(kind, ow.wref)] }
+
+/-- `Cache.Free(owner)`: every reference of the owner is dropped; a kind without references loses
+its informer (`delete(c.informerReferences, gvk)`). -/
+def World.free (w : World) (r : WRef) : World :=
+  { w with watched := w.watched.filter fun e => e.2 ≠ r }
+
+/-- Operator restart: the dynamic cache lives in the memory of the process. -/
+def World.restart (w : World) : World := { w with watched := [] }
+
+/-- `_, ok := c.informerReferences[gvk]` — the condition under which `Cache.Get` / `Cache.List`
+do NOT answer `CacheNotStartedError`. -/
+def World.started (w : World) (kind : String) : Bool := w.watched.any fun e => e.1 == kind
+
+/-- cache read of a started kind: fresh, but only objects carrying the cache label. -/
 def cacheGet (s : Store) (k : Key) : Option Obj :=
   match s.get k with
   | some o => if o.cacheLabel then some o else none
@@ -353,19 +396,32 @@ def reconcileObjectWith (cfg : Cfg) (ow : Owner) (prev : List Prev) (p : PObj) (
           (w, .actual o)
         else (w, .actual updated)
 
-/-- `reconcileObject`. -/
+/-- `reconcileObject`: `dynamicCache.Get` first — any error but NotFound ends the step, in
+particular `CacheNotStartedError` when nobody in this process called `Watch` for the kind. -/
 def reconcileObject (cfg : Cfg) (ow : Owner) (prev : List Prev) (p : PObj) (w : World) : World × ObjRes :=
-  reconcileObjectWith cfg ow prev p w (keyOf cfg ow p) (seen w (keyOf cfg ow p))
+  if w.started p.kind then
+    reconcileObjectWith cfg ow prev p w (keyOf cfg ow p) (seen w (keyOf cfg ow p))
+  else (w, .err)
+
+/-- the paused branch of `reconcilePhaseObject`: the object is only looked up, through the dynamic
+cache ("looking up object while paused").  NotFound is reported as a missing object by the
+caller; every other error — `CacheNotStartedError` — ends the step. -/
+def pausedLookup (p : PObj) (w : World) (k : Key) : World × ObjRes :=
+  if w.started p.kind then
+    match cacheGet w.store k with
+    | some o => (w, .actual o)
+    | none => (w, .missing)
+  else (w, .err)
 
 /-- `reconcilePhaseObject`. -/
 def reconcilePhaseObject (cfg : Cfg) (ow : Owner) (prev : List Prev) (p : PObj) (w : World) : World × ObjRes :=
   -- SetControllerReference(owner, desiredObj): desired has no references (or preflight stopped us)
   if cfg.st = .native ∧ ow.ns ≠ "" ∧ desiredNs ow p ≠ ow.ns then (w, .err)
-  else if ow.paused then
-    match cacheGet w.store (keyOf cfg ow p) with
-    | some o => (w, .actual o)
-    | none => (w, .missing)
-  else reconcileObject cfg ow prev p w
+  else
+    -- "Ensure to watch this type of object." — BEFORE any read through the cache, paused or not
+    let w := w.watch ow p.kind
+    if ow.paused then pausedLookup p w (keyOf cfg ow p)
+    else reconcileObject cfg ow prev p w
 
 inductive Outcome where
   | ok (failed : List String)        -- names of objects failing probes / missing
@@ -404,6 +460,8 @@ def teardownPhaseObject (cfg : Cfg) (ow : Owner) (p : PObj) (w : World) : World 
   | .error => (w, .err)
   | .violation => (w, .done)
   | .ok =>
+    -- "Ensure to watch this type of object, also during teardown!" (the process may have restarted)
+    let w := w.watch ow p.kind
     let k := keyOf cfg ow p
     match w.store.get k with           -- uncached read
     | none => (w, .done)
